@@ -1038,6 +1038,10 @@ class XandikosBackend(webdav.Backend):
         relpath = posixpath.normpath(relpath)
         if not relpath.startswith("/"):
             raise ValueError("relpath %r should start with /")
+        if relpath.startswith("//"):
+            # normpath() keeps exactly two leading slashes (POSIX); they are
+            # the root like any other number of them
+            relpath = relpath[1:]
         if relpath == "/":
             return RootPage(self)
         if self._in_control_dir(relpath):
